@@ -9,6 +9,11 @@ CHECKS = {
     note="Trusts TLC/SANY, the Go toolchain, VerifReset (verif tag) and the class representatives chosen for concretisation.",
     technique="TLA+ spec (TagLang/TagRegistry) model-checked with TLC; every enumerated state replayed on the real code",
     design="4/C18", engine="taglang"),
+ "C09": dict(
+    text="TLC enumerates every string over the 21 byte classes (on which escaping and UTF-8 well-formedness are constant) up to length 4, runs the escaper transducer whose guards define well-formed UTF-8, checks totality, determinism, no raw control/quote/backslash, UTF-8 validity and the partition law, and emits each (input classes, output tokens). The table is replayed on WriteLogString with min/max/random bytes of each class, drives a sliding-window oracle for random strings up to 64 KiB and an exhaustive sweep of all byte strings up to length 3; outputs that differ are judged by an independent JSON/UTF-8 decoder.",
+    note="Trusts TLC/SANY, Go toolchain, encoding/json + unicode/utf8 as reference decoders, and the <=4-byte look-ahead argument for strings longer than the window.",
+    technique="TLA+ transducer spec (Escape) model-checked with TLC; TLC-generated table replayed on WriteLogString and both encoders",
+    design="4/C09", engine="escape"),
 }
 
 NOT_YET = {}
